@@ -257,6 +257,8 @@ class Store:
 # ---------------------------------------------------------------------------------------------
 # namespace operations (methods added to Store below to keep the message part readable)
 def _children(self, name: str):
+    if name == "INBOX":  # the inbox folder is `inbox` on disk: inbox/x is its inferior
+        return [n for n in self.mboxes if n.lower().startswith("inbox/")]
     return [n for n in self.mboxes if n.startswith(name + "/")]
 
 
@@ -323,6 +325,8 @@ def rename(self, old: str, new: str):
         raise Refused(("NO",), "no such mailbox")
     if new in self.mboxes or new == "INBOX" or not new.strip() or new.isdigit():
         raise Refused(("NO", "BAD"), "destination exists / invalid")
+    if new.startswith(old + "/"):
+        raise Refused(("NO", "BAD"), "destination is an inferior of the source")
     if old == "INBOX":
         created = create(self, new)
         d = self.mboxes[new]
